@@ -192,14 +192,22 @@ def deleteKindsPost (before after ks : List Kind) : Option Kind :=
 
 def Loaded.kv (L : Loaded) : KV := L.store.getD []
 
+/-- the map an entity's property tracking is relative to: the loaded map, or the empty map once
+`StripAllPropertiesExcept` detached it (ghost flag `Ent.attached`) -/
+def Ent.base (x : Ent) (L : Loaded) : KV := if x.attached then L.kv else []
+
 /-- invariant of one tracked entity: properties and kinds -/
 structure EInv (L : Loaded) (x : Ent) : Prop where
-  props : Inv L.kv x.props
+  props : Inv (x.base L) x.props
   kinds : KInv L.kinds x
 
 structure EWeak (L : Loaded) (x : Ent) : Prop where
-  props : WeakInv L.kv x.props
+  props : WeakInv (x.base L) x.props
   kinds : WeakKInv L.kinds x
+
+def Op.isStrip : Op → Bool
+  | .strip _ _ => true
+  | _ => false
 
 /-- both entities of a state satisfy the invariant w.r.t. the one loaded state -/
 def SInv (L : Loaded) (st : St) : Prop := ∀ e, EInv L (st.get e)
